@@ -49,6 +49,22 @@ func init() {
 	// experiments on discarded branches are the "simulated transaction" / "failed proposal"
 	// stimulus under which state kept in process memory shows (the lab restricts itself to
 	// the modules whose workload is present)
+	// C07 also needs fees in a second denomination (owner tallies per denomination, prices
+	// exchanged through a feed): the service workload together with the feed workload, which
+	// sets up the price feed and offers the second price denomination
+	if sp := engine.GetProfile("service"); sp != nil {
+		engine.RegisterProfile(&engine.Profile{
+			Name:    "service-feeds",
+			Tune:    sp.Tune,
+			Weights: map[string]int{"service": 30, "oraclefeed": 12},
+			Mods: func() []engine.Module {
+				return []engine.Module{servicemod.New(), oraclefeed.New(), sys.NewParamLab()}
+			},
+		})
+		if p := engine.GetProperty("C07"); p != nil {
+			p.Profile = "service-feeds"
+		}
+	}
 	for _, name := range []string{"amm", "farm", "htlc", "service", "token", "oraclefeed", "random"} {
 		if p := engine.GetProfile(name); p != nil {
 			orig := p.Mods
